@@ -9,9 +9,9 @@ func init() {
 			{Workload: "C18.fetcher", Mode: "race", ThoroughB: 8, ThoroughOnly: true, ThoroughT: 5400},
 		},
 		Level: "exploration",
-		Rule: "C18.script: PRNG-scripted single-goroutine schedules against the real download queue (through the verif-tagged VerifQueue wrapper): header chains of 1..9000 blocks with 0..100% empty blocks, 1-6 peers with profiles honest/flaky/liar/silent/anything answering completely, with a prefix, emptily, with one corrupted body, with someone else's bodies, shifted, reversed, with extra or nil entries, twice, unrequested, late after expiry and re-assignment, or never; Schedule (also malformed: gap, wrong origin, replay, forged parent, swapped pair), Reserve, Deliver, Cancel (of a live request), Expire (all, or selectively through a logical clock), Revoke (+reconnect), Results at random points, result caches of 1..8192 slots, memory-bound throttling, per-call result caps 1..2048, lagging consumers. Every call's (input, output) is judged by a permissive sequential task-state model (model/c18_queue.go: unscheduled|queued|pending(peer)|done|released); everything Results returns is checked model-free for ascending gap-free numbers from the origin, each header once, the scheduled header, complete, and the transaction list constructed for it (root recomputed by the harness' own MPT calculator on any difference); at quiescent points (every step for short chains) VerifPools (under q.lock) must show every scheduled unreleased header in exactly one of {task queue, one peer's request, done pool} and in the place the model says, nothing stale or foreign anywhere, resultOffset = origin+1+released; when faults stop, one honest peer (an existing one or a fresh one) must complete the range within 2*(range+peers)+8 scheduler rounds (expire, reserve, deliver, retrieve). " +
+		Rule: "C18.script: PRNG-scripted single-goroutine schedules against the real download queue (through the verif-tagged VerifQueue wrapper): header chains of 1..9000 blocks with 0..100% empty blocks, 1-6 peers with profiles honest/flaky/liar/silent/anything answering completely, with a prefix, emptily, with one corrupted body, with someone else's bodies, shifted, reversed, with extra or nil entries, twice, unrequested, late after expiry and re-assignment, or never; Schedule (also malformed: gap, wrong origin, replay, forged parent, swapped pair), Reserve, Deliver, Cancel (of a live request), Expire (all, or selectively through a logical clock), Revoke (+reconnect), Results at random points, result caches of 1..8192 slots, memory-bound throttling, per-call result caps 1..2048, lagging consumers; one case in eight runs the queue in fast-sync mode (two-part results, receipt parts always empty). Every call's (input, output) is judged by a permissive sequential task-state model (model/c18_queue.go: unscheduled|queued|pending(peer)|done|released); everything Results returns is checked model-free for ascending gap-free numbers from the origin, each header once, the scheduled header, complete, and the transaction list constructed for it (root recomputed by the harness' own MPT calculator on any difference); at quiescent points (every step for short chains) VerifPools (under q.lock) must show every scheduled unreleased header in exactly one of {task queue, one peer's request, done pool} and in the place the model says, nothing stale or foreign anywhere, resultOffset = origin+1+released; when faults stop, one honest peer (an existing one or a fresh one) must complete the range within 2*(range+peers)+8 scheduler rounds (expire, reserve, deliver, retrieve). " +
 			"C18.conc (race build): 2-3 peer goroutines + header/timer goroutine + consumer goroutine (non-blocking or blocking Results + Close) on one queue; the recorded history (<=64 operations, logical timestamps) must be linearizable w.r.t. the same model (porcupine; checker timeout => inconclusive), the consumer's stream passes the same model-free checks, the pools satisfy task conservation at the quiescent end, and a fresh honest peer then completes the range in bounded rounds; any Go race report is a violation. " +
-			"C18.e2e (race build): the real downloader.New/RegisterPeer/Synchronise/Deliver* in full-sync mode with scripted Peer implementations (faulty skeleton fills, faulty/slow/duplicated/never-arriving bodies, disconnects, peers with shorter chains, pre-synced local chains, faulty masters) against a recording BlockChain: every block reaching InsertChain must continue the importer's chain from the sync's origin without gap or repeat, be the source chain's header and carry its transaction list; after faults stop <=3 Synchronise calls with an honest master must import the whole chain (watchdog or honest timeouts => inconclusive). C18.fetcher (thorough): you/fetcher fed propagated/announced blocks out of order, duplicated, far ahead, siblings, from several peers; each block reaches insertChain at most once and only after its parent. " +
+			"C18.e2e (race build): the real downloader.New/RegisterPeer/Synchronise/Deliver* in full-sync mode with scripted Peer implementations (faulty skeleton fills, faulty/slow/duplicated/never-arriving bodies, disconnects, peers with shorter chains, pre-synced local chains, faulty masters) against a recording BlockChain: every block reaching InsertChain must continue the importer's chain from the sync's origin without gap or repeat, be the source chain's header and carry its transaction list; after faults stop <=4 Synchronise calls with an honest master must import the whole chain (watchdog, or failed honest syncs while the harness measured a >300 ms scheduling stall of its own process => inconclusive). C18.fetcher (thorough): you/fetcher fed propagated/announced blocks out of order, duplicated, far ahead, siblings, from several peers; each block reaches insertChain at most once and only after its parent. " +
 			"distinct_nontrivial = distinct (shape, peers, empty-block bucket, cache-covers-range?, core feature set) / (history shape) / (e2e outcome sequence) signatures.",
 		Explanation: "held = on the executions of this run no Results/InsertChain stream left the order/once/matching-body rule, no call was refused by the task-state model, no quiescent pool snapshot broke task conservation, every range completed within the round bound once faults stopped, every recorded concurrent history was linearizable and the race detector stayed silent. Not a proof: schedules are sampled, not enumerated.",
 		Assumptions: []string{
@@ -19,7 +19,7 @@ func init() {
 			"the queue is driven through add-only verif-tagged exports (you/downloader/verif_export.go); VerifPools drains and refills the two priority queues under q.lock (same multiset)",
 			"request expiry is driven by a logical clock (ExpireBodies(-1ns) = everything expired; VerifQueue.Age + ExpireBodies(1h) = selected requests expired)",
 			"CancelBodies is only called for a request that is still in flight (the production fetchParts never calls it at all); the honest peer never answers with an empty list (an honest peer with the block does not)",
-			"package tunables (plain vars) are set per case in C18.script/C18.conc (blockCacheItems, blockCacheMemory, maxResultsProcess) and once per process in C18.e2e (MaxHeaderFetch 24, MaxSkeletonSize 6, MaxBlockFetch 16, blockCacheItems 64, maxResultsProcess 20, maxHeadersProcess 40, RTT 20-400 ms, TTL cap 1.5 s)",
+			"package tunables (plain vars) are set per case in C18.script/C18.conc (blockCacheItems, blockCacheMemory, maxResultsProcess) and once per process in C18.e2e (MaxHeaderFetch 24, MaxSkeletonSize 6, MaxBlockFetch 16, blockCacheItems 64, maxResultsProcess 20, maxHeadersProcess 40, RTT 400-500 ms, TTL 1.2-1.5 s)",
 			"end-to-end: all peers serve one source chain (no forks); a sync's origin may lie below the importer's head (findAncestor samples every second header), re-imported blocks must then be identical; fast/light sync (receipts) is not exercised",
 			"observation recorded, not judged (probe-stale-delivery): a body answer that matches nothing of the request leaves that peer flagged busy with no request in the queue; with no other peer the sync neither progresses nor times out until the peer disconnects. The liveness clause presupposes a peer that answers what it is asked, so this is reported as a note only",
 		},
@@ -29,7 +29,7 @@ func init() {
 			"feat_mem-limit": 100, "feat_fresh-honest-peer": 300, "deliver_accepted_part": 300, "deliver_accepted_all": 5000,
 			"deliver_unsolicited_rejected": 5000, "deliver_err_stale-delivery": 1000, "pool_snapshots": 50000,
 			"released_empty_blocks": 50000, "reserve_progress_empty_blocks": 3000, "schedule_truncated": 500,
-			"histories": 600, "overlapping_ops": 2000, "released_concurrently": 500, "blocking_consumer_histories": 50,
+			"feat_fast-sync-mode": 100, "reserve_receipts_progress": 1000, "histories": 600, "overlapping_ops": 2000, "released_concurrently": 500, "blocking_consumer_histories": 50,
 			"cancel_mode_histories": 50, "e2e_completed": 20, "e2e_blocks_imported": 1000, "e2e_peer_drops": 3,
 		},
 	}
